@@ -29,7 +29,7 @@ LEVEL_NOTE = (
 )
 TECHNIQUE = "fault enumeration at every file operation (exception and fork+os._exit) over Hypothesis-generated store/value cases; file-system state oracle"
 RULE = (
-    "Hypothesis draws store kind in {json, pickle, text, binary, touch, staged_write, staged_write_path}, path type, "
+    "(also: after a kill the follow-up first writes the shortest value of the domain and the target's bytes must equal a clean write's) Hypothesis draws store kind in {json, pickle, text, binary, touch, staged_write, staged_write_path}, path type, "
     "encoding, previous value (or none) and a different new value (1 in 5 with an unserialisable leaf). Every file-op index "
     "k of the fault-free write x {oserror (one-shot EIO), perm (persistent PermissionError), kbi, exit} is executed, plus a short write at every write() (effective on raw files only), a nonexistent encoding, and for every k a complete write by a second store to a neighbouring file name of the same directory (same stem / prefix / other suffix) before operation k. Non-trivial = a previous value exists and 0 < k < last. "
     "Distinct = SHA-1 of (case, k, kind)."
